@@ -256,12 +256,44 @@ def cases(seed, tier):
     # trap words made frequent (known-finding classes are exercised on purpose)
     for i in range(40 if tier == "quick" else 600):
         yield mk("parse", True, False, [record(r, tier, small=True, trap=0.08)])
+    for c in raw_cases(r, 300 if tier == "quick" else 5000):
+        yield c
     # out-of-domain probes (not judged): header given to Parse, records without header given to ParseFlat
     for i in range(6):
         recs = [record(r, tier, small=True) for _ in range(2)]
         yield mk("parse", True, True, recs[:1])
         yield mk("flat", True, False, recs)
         yield mk("parse", False, False, recs)
+
+
+def raw_cases(r, n):
+    """raw texts outside the domain (not judged): the model must still agree, panics included"""
+    mols = ["DNA", "mRNA", "genomic DNA", "other RNA", "ss-DNA", "viral cRNA", "rna", ""]
+    for _ in range(n):
+        k = r.random()
+        if k < 0.45:
+            # a LOCUS line with odd fields and spacing, alone or followed by a short record
+            toks = ["LOCUS", r.choice(["x", "DNA", "12", "linear", "a b", "AB000100", ""]),
+                    r.choice(["5", "20", "123456", "", "12 34", "9x"]), r.choice(["bp", "aa", "b", ""]),
+                    r.choice(mols), r.choice(["circular", "linear", "", "circular linear"]),
+                    r.choice(["BCT", "PRI", "ENV", "XXX", "", "PRIBCT"]),
+                    r.choice(["01-JAN-2020", "1-JAN-2020", "01-jan-2020", "", "31-DEC-19999", "x01-FEB-2001"])]
+            line = ""
+            for t in toks:
+                line += t + " " * r.choice([0, 1, 1, 2, 7])
+            text = line + r.choice(["", "\n", "\nORIGIN\n        1 acgt\n//\n"])
+        elif k < 0.75:
+            lines = []
+            for _ in range(r.randint(1, 12)):
+                lines.append(r.choice(["", " ", "  x", "      y", "DEFINITION  a", "            b", "SOURCE      s", "  ORGANISM  o",
+                                       "REFERENCE   1  (bases 1 to 2)", "  AUTHORS   A", "  TITLE", "COMMENT     c", "FEATURES             Location/Qualifiers",
+                                       "     gene            1..2", "     gene", "                     /note=\"a", "                     b\"",
+                                       "                     /pseudo", "                     3..4)", "ORIGIN", "        1 acgt", "//", "/", "x", "LOCUS a",
+                                       "KEYWORDS    .", "ACCESSION", "VERSION     v", "                     /k=\"x\"y\"", "     CDS             join(1..2,"]))
+            text = "\n".join(lines) + r.choice(["", "\n"])
+        else:
+            text = randword(r, " \n/=\"aA1LOCUS", r.randint(0, 60))
+        yield ["c01", "raw", r.choice(["parse", "parse", "multi", "flat"]), text]
 
 
 PARTIAL = []
